@@ -3,7 +3,8 @@
  *
  *   pdst <op> <A> <B|n> <prior>     polynomial operation, result written into: a fresh object, an object holding
  *                                   <prior>, the object A itself, the object B itself -> four canonical texts
- *   vdst <op> <a> <b|n> <prior>     the same for lp_value_* operations (values as valio tokens)
+ *   vdst <op> <a> <b|n> <prior>     the same for lp_value_* operations (values as valio tokens); binary: also "self:" (out == a == b)
+ *   sdst <d|q|z> <op> ...           binary operations of the scalar layer (dyadic / rational / integer), see sdst() below
  *   idst <op> <lo1> <o1> <hi1> <c1> <lo2> <o2> <hi2> <c2> <prior-kind>   lp_interval_add/mul/pow
  *   rc <history>                    reference-counting history (see gen/C19.py); ends with a recoverable leak check
  */
@@ -125,6 +126,9 @@ static int vdst(void) {
     vio_parse(&r, vtok[4]); fb(&r, &a, &b); vio_print(&r); lp_value_destruct(&r); putchar(' ');
     lp_value_construct_copy(&r, &a); fb(&r, &r, &b); vio_print(&r); lp_value_destruct(&r); putchar(' ');
     lp_value_construct_copy(&r, &b); fb(&r, &a, &r); vio_print(&r); lp_value_destruct(&r);
+    /* one object as output and both inputs (scalar kinds; x/x needs x != 0) */
+    if (a.type != LP_VALUE_ALGEBRAIC && !(fb == lp_value_div && lp_value_sgn(&a) == 0)) {
+      lp_value_construct_copy(&r, &a); fb(&r, &r, &r); printf(" self:"); vio_print(&r); lp_value_destruct(&r); }
   } else {
     lp_value_construct_none(&r); fu(&r, &a); vio_print(&r); lp_value_destruct(&r); putchar(' ');
     vio_parse(&r, vtok[4]); fu(&r, &a); vio_print(&r); lp_value_destruct(&r); putchar(' ');
@@ -278,6 +282,101 @@ static int vlist(void) {
   return 1;
 }
 
+/* ---- sdst: binary operations of the SCALAR layer (integer.h / rational.h / dyadic_rational.h through the public lp_* API),
+ * the result written into: a fresh object, an object holding <u>, the object a itself (out == a), the object b itself
+ * (out == b), and one object that is output and both inputs (out == a == b, value a) -> "r1 r2 r3 r4 self:r5 in:a b".
+ *   sdst d <op> <a> <an> <b> <bn> <u> <un>      add sub mul            (a/2^an, normalised)
+ *   sdst q <op> <n1> <d1> <n2> <d2> <un> <ud>   add sub mul div        (canonical)
+ *   sdst z <op> <M> <a> <b> <u>                 add sub mul divexact (ring M, 0 = Z), divZ remZ gcd lcm (Z),
+ *                                               addmul submul: accumulator = u, = a, = b, = a = b -> "r1 r2 r3 self:r4 in:a b" */
+typedef void (*dbin)(lp_dyadic_rational_t*, const lp_dyadic_rational_t*, const lp_dyadic_rational_t*);
+typedef void (*qbin)(lp_rational_t*, const lp_rational_t*, const lp_rational_t*);
+typedef void (*zbin)(const lp_int_ring_t*, lp_integer_t*, const lp_integer_t*, const lp_integer_t*);
+static void sd_setdy(lp_dyadic_rational_t* d, const char* a, const char* n) {
+  lp_dyadic_rational_construct(d); mpz_set_str(&d->a, a, 10); d->n = strtoul(n, NULL, 10);
+}
+static void sd_setq(lp_rational_t* q, const char* a, const char* b) {
+  lp_integer_t n, d; mpz_init_set_str(&n, a, 10); mpz_init_set_str(&d, b, 10);
+  lp_rational_construct_from_div(q, &n, &d); mpz_clear(&n); mpz_clear(&d);
+}
+static void sd_pq(const lp_rational_t* q) { print_z(mpq_numref(q)); putchar('/'); print_z(mpq_denref(q)); }
+static void wz_divZ(const lp_int_ring_t* K, lp_integer_t* r, const lp_integer_t* a, const lp_integer_t* b) { (void) K; lp_integer_div_Z(r, a, b); }
+static void wz_remZ(const lp_int_ring_t* K, lp_integer_t* r, const lp_integer_t* a, const lp_integer_t* b) { (void) K; lp_integer_rem_Z(r, a, b); }
+static void wz_gcd(const lp_int_ring_t* K, lp_integer_t* r, const lp_integer_t* a, const lp_integer_t* b) { (void) K; lp_integer_gcd_Z(r, a, b); }
+static void wz_lcm(const lp_int_ring_t* K, lp_integer_t* r, const lp_integer_t* a, const lp_integer_t* b) { (void) K; lp_integer_lcm_Z(r, a, b); }
+static int sdst(void) {
+  if (vntok < 3) return 0;
+  const char* kind = vtok[1]; const char* op = vtok[2];
+  if (!strcmp(kind, "d") && vntok == 9) {
+    dbin f = !strcmp(op, "add") ? lp_dyadic_rational_add : !strcmp(op, "sub") ? lp_dyadic_rational_sub
+           : !strcmp(op, "mul") ? lp_dyadic_rational_mul : NULL;
+    if (!f) return 0;
+    lp_dyadic_rational_t a, b, r;
+    sd_setdy(&a, vtok[3], vtok[4]); sd_setdy(&b, vtok[5], vtok[6]);
+    lp_dyadic_rational_construct(&r); f(&r, &a, &b); vio_print_dy(&r); lp_dyadic_rational_destruct(&r); putchar(' ');
+    sd_setdy(&r, vtok[7], vtok[8]); f(&r, &a, &b); vio_print_dy(&r); lp_dyadic_rational_destruct(&r); putchar(' ');
+    lp_dyadic_rational_construct_copy(&r, &a); f(&r, &r, &b); vio_print_dy(&r); lp_dyadic_rational_destruct(&r); putchar(' ');
+    lp_dyadic_rational_construct_copy(&r, &b); f(&r, &a, &r); vio_print_dy(&r); lp_dyadic_rational_destruct(&r); putchar(' ');
+    lp_dyadic_rational_construct_copy(&r, &a); f(&r, &r, &r); printf("self:"); vio_print_dy(&r); lp_dyadic_rational_destruct(&r);
+    printf(" in:"); vio_print_dy(&a); putchar(' '); vio_print_dy(&b);
+    lp_dyadic_rational_destruct(&a); lp_dyadic_rational_destruct(&b);
+    return 1;
+  }
+  if (!strcmp(kind, "q") && vntok == 9) {
+    qbin f = !strcmp(op, "add") ? lp_rational_add : !strcmp(op, "sub") ? lp_rational_sub
+           : !strcmp(op, "mul") ? lp_rational_mul : !strcmp(op, "div") ? lp_rational_div : NULL;
+    if (!f) return 0;
+    lp_rational_t a, b, r;
+    sd_setq(&a, vtok[3], vtok[4]); sd_setq(&b, vtok[5], vtok[6]);
+    if (f == lp_rational_div && mpq_sgn(&b) == 0) { printf("none"); lp_rational_destruct(&a); lp_rational_destruct(&b); return 1; }
+    lp_rational_construct(&r); f(&r, &a, &b); sd_pq(&r); lp_rational_destruct(&r); putchar(' ');
+    sd_setq(&r, vtok[7], vtok[8]); f(&r, &a, &b); sd_pq(&r); lp_rational_destruct(&r); putchar(' ');
+    lp_rational_construct_copy(&r, &a); f(&r, &r, &b); sd_pq(&r); lp_rational_destruct(&r); putchar(' ');
+    lp_rational_construct_copy(&r, &b); f(&r, &a, &r); sd_pq(&r); lp_rational_destruct(&r); putchar(' ');
+    printf("self:");
+    if (f == lp_rational_div && mpq_sgn(&a) == 0) printf("none");
+    else { lp_rational_construct_copy(&r, &a); f(&r, &r, &r); sd_pq(&r); lp_rational_destruct(&r); }
+    printf(" in:"); sd_pq(&a); putchar(' '); sd_pq(&b);
+    lp_rational_destruct(&a); lp_rational_destruct(&b);
+    return 1;
+  }
+  if (!strcmp(kind, "z") && vntok == 7) {
+    int acc = 0, div = 0;
+    zbin f = NULL;
+    if (!strcmp(op, "add")) f = lp_integer_add; else if (!strcmp(op, "sub")) f = lp_integer_sub;
+    else if (!strcmp(op, "mul")) f = lp_integer_mul; else if (!strcmp(op, "divexact")) { f = lp_integer_div_exact; div = 1; }
+    else if (!strcmp(op, "divZ")) { f = wz_divZ; div = 1; } else if (!strcmp(op, "remZ")) { f = wz_remZ; div = 1; }
+    else if (!strcmp(op, "gcd")) f = wz_gcd; else if (!strcmp(op, "lcm")) f = wz_lcm;
+    else if (!strcmp(op, "addmul")) { f = lp_integer_add_mul; acc = 1; } else if (!strcmp(op, "submul")) { f = lp_integer_sub_mul; acc = 1; }
+    else return 0;
+    lp_int_ring_t* K = lp_Z;
+    if (strcmp(vtok[3], "0") != 0) { lp_integer_t M; mpz_init_set_str(&M, vtok[3], 10);
+      K = lp_int_ring_create(&M, mpz_probab_prime_p(&M, 25) ? 1 : 0); mpz_clear(&M); }
+    lp_integer_t a, b, r;
+    mpz_init_set_str(&a, vtok[4], 10); mpz_init_set_str(&b, vtok[5], 10);
+    if (acc) {
+      mpz_init_set_str(&r, vtok[6], 10); f(K, &r, &a, &b); print_z(&r); mpz_clear(&r); putchar(' ');
+      mpz_init_set(&r, &a); f(K, &r, &r, &b); print_z(&r); mpz_clear(&r); putchar(' ');
+      mpz_init_set(&r, &b); f(K, &r, &a, &r); print_z(&r); mpz_clear(&r); putchar(' ');
+      mpz_init_set(&r, &a); f(K, &r, &r, &r); printf("self:"); print_z(&r); mpz_clear(&r);
+    } else if (div && mpz_sgn(&b) == 0) printf("none");
+    else {
+      lp_integer_construct(&r); f(K, &r, &a, &b); print_z(&r); mpz_clear(&r); putchar(' ');
+      mpz_init_set_str(&r, vtok[6], 10); f(K, &r, &a, &b); print_z(&r); mpz_clear(&r); putchar(' ');
+      mpz_init_set(&r, &a); f(K, &r, &r, &b); print_z(&r); mpz_clear(&r); putchar(' ');
+      mpz_init_set(&r, &b); f(K, &r, &a, &r); print_z(&r); mpz_clear(&r); putchar(' ');
+      printf("self:");
+      if (div && mpz_sgn(&a) == 0) printf("none");
+      else { mpz_init_set(&r, &a); f(K, &r, &r, &r); print_z(&r); mpz_clear(&r); }
+    }
+    printf(" in:"); print_z(&a); putchar(' '); print_z(&b);
+    mpz_clear(&a); mpz_clear(&b);
+    if (K != lp_Z) lp_int_ring_detach(K);
+    return 1;
+  }
+  return 0;
+}
+
 int main(void) {
   mpz_init(&g_c);
   pio_init(lp_Z);
@@ -291,6 +390,7 @@ int main(void) {
     else if (is_op("rc")) ok = rc();
     else if (is_op("vlist")) ok = vlist();
     else if (is_op("isub")) ok = isub();
+    else if (is_op("sdst")) ok = sdst();
     if (!ok) printf("UNKNOWN-OP");
     end_case();
   }
